@@ -37,7 +37,7 @@ Qed.
 
 Lemma gdone_le_step s e : gdone_le (gs s) (gs (step repaired s e)).
 Proof.
-  destruct e as [c|k|r|a|g|a|g en|g v hr er|g|k|c|c|c|c res|c]; try (apply gdone_le_gtr; apply gtr_step; intros; discriminate).
+  destruct e as [c|k|r|a|g|a|g en|g v hr er|g|k|c|c|c|c res|c|c]; try (apply gdone_le_gtr; apply gtr_step; intros; discriminate).
   cbn [step]. unfold resolver_return. destruct (nth_error (gs s) g) as [x|] eqn:Ex; [|apply gdone_le_refl]. destruct (gpcv x) eqn:Ep; try apply gdone_le_refl.
   intros i y Hy D. assert (Hl : g < length (gs s)) by (eapply nth_error_nth_len; eauto). rewrite gs_setg. destruct (Nat.eq_dec i g) as [->|Hne].
   - assert (y = x) by congruence. subst y. unfold gdone in D. rewrite Ep in D. discriminate.
@@ -172,10 +172,11 @@ Lemma cb_return_ICG G fx s c res : ICG G (conss s) -> ICG G (conss (cb_return fx
 Proof.
   intros H. unfold cb_return. destruct (nth_error (conss s) c) as [x|] eqn:Ex; [|exact H]. pose proof (H c x Ex) as Vx.
   destruct (ck x); try exact H. destruct (cpcv x); try exact H.
-  assert (AR : forall e', ICG G (conss (acc_ret s c x e'))) by (intros e'; unfold acc_ret; now apply (cons_own_ICG G s c x x e' H Vx Ex)).
+  assert (Vd : cval G (cb_done x)) by exact Vx.
+  assert (AR : forall e', ICG G (conss (acc_ret s c (cb_done x) e'))) by (intros e'; unfold acc_ret; now apply (cons_own_ICG G s c x (cb_done x) e' H Vd Ex)).
   destruct (ccanc x); [apply AR|].
   match goal with |- ICG G (conss (if ?b then _ else _)) => destruct b end; [apply AR|].
-  rewrite conss_setc. apply ICG_set; [exact H|]. destruct Vx as [A [B C]]. split; [|split]; cbn [cw_res ww_prom cpcv with_cpc]; auto. intros; discriminate.
+  rewrite conss_setc. apply ICG_set; [exact H|]. destruct Vx as [A [B C]]. split; [|split]; cbn [cw_res ww_prom cpcv with_cpc cb_done]; auto. intros; discriminate.
 Qed.
 
 Lemma add_ref_ICG G s k : (resolved s = true -> dval G (value s)) -> ICG G (conss s) -> ICG G (conss (add_ref repaired s k)).
@@ -192,7 +193,7 @@ Proof.
   { intros Er. destruct HI as [[_ [_ [_ [_ [[V1 _] _]]]]] _]. destruct (V1 Er) as [Hv [A2 [A3 _]]]. destruct Hv as [Hv|Hv]; [|now left].
     right. exists (vgen s), (getg s (vgen s)). split; [exact Hv|]. split; [unfold getg; now apply nth_error_nth' | exact A3]. }
   assert (Mono : forall l, ICG (gs s) l -> ICG (gs (step repaired s e)) l) by (intros l; apply ICG_mono, gdone_le_step).
-  destruct e as [c|k|r|a|g|a|g en|g v hr er|g|k|c|c|c|c res|c].
+  destruct e as [c|k|r|a|g|a|g en|g v hr er|g|k|c|c|c|c res|c|c].
   - apply Mono; cbn [step]. unfold set_context. destruct (Nat.eqb (kctx s) c); [exact H|]. cbn [fst]. exact (start_resolve_ICG _ (set_kctx s c) H).
   - apply Mono; cbn [step]. now apply add_ref_ICG.
   - apply Mono; cbn [step]. destruct (rkind (nth r (refs s) ref0)); try exact H; unfold release_call; now rewrite conss_release_call_by.
@@ -231,6 +232,8 @@ Proof.
     apply remove_ref_ICG. rewrite conss_setc. apply ICG_set; [exact H|]. exact (H c x Ex).
   - apply Mono; cbn [step]. now apply cb_return_ICG.
   - apply Mono; cbn [step]. destruct (Nat.eqb c 0); [exact H|]. destruct (cancel_root_frame s c) as [_ [_ [E _]]]. now rewrite E.
+  - apply Mono; cbn [step]. destruct (watch_step_spec s c) as [->|[x [y [Hx [-> Hy]]]]]; [exact H|]. wsplit Hy. rewrite conss_setc. apply ICG_set; [exact H|].
+    pose proof (H c x Hx) as Vx. unfold cval in *. rewrite Wcw, Wwprom, Wcpcv. exact Vx.
 Qed.
 
 Theorem run_IC k es : Forall wf_ev es -> IC (run repaired (init k) es).
